@@ -32,7 +32,7 @@ pub fn lanes_of(id: &str) -> Vec<(&'static str, LaneFn)> {
         "C03" => vec![("responses", c03::responses), ("helpers", c03::helpers)],
         "C04" => vec![("cuts", c04::cuts), ("write_errors", c04::write_errors), ("handle_drops", c04::handle_drops), ("real_transports", c04::real_transports), ("paged_connection_loss", c16::paging_faults)],
         "C05" => vec![("wrap", c05::wrap), ("threads", c05::threads)],
-        "C06" => vec![("decoder_prefixes", c06::decoder_prefixes), ("partitions", c06::partitions), ("exhaustive_splits", c06::exhaustive_splits)],
+        "C06" => vec![("decoder_prefixes", c06::decoder_prefixes), ("partitions", c06::partitions), ("exhaustive_splits", c06::exhaustive_splits), ("bursts", c06::bursts)],
         "C07" => vec![("trees", c07::trees), ("integers", c07::integers), ("nonminimal", c07::nonminimal)],
         "C08" => vec![("generated", c08::generated), ("exhaustive", c08::exhaustive), ("mutated", c08::mutated), ("rejection", c08::rejection_classes)],
         "C09" => vec![("exhaustive_short", c09::exhaustive_short), ("exhaustive_meta", c09::exhaustive_meta), ("random", c09::random)],
@@ -58,6 +58,10 @@ pub fn run(ctx: &Ctx, id: &str, only: Option<&str>) -> Vec<Value> {
             if o != name {
                 continue;
             }
+        }
+        // lanes that need child processes or real sockets cannot run inside the Miri interpreter
+        if cfg!(miri) && matches!(name, "stack" | "real_transports") {
+            continue;
         }
         let t = std::time::Instant::now();
         let rep = f(ctx);
